@@ -226,6 +226,7 @@ void fv_free(void *p) {
 }
 
 /* ---- scanner-facing part (uses the generated scanner's own API) ------------------------ */
+#ifndef FV_CORE_ONLY
 #if defined(FV_BACKEND_C99)
 #define FV_DEF_ONLY yyscan_t yyscanner
 #define FV_DEF_LAST , void *fv_ys_
@@ -462,3 +463,4 @@ int main(int argc, char **argv) {
     fv_stats();
     return 0;
 }
+#endif /* FV_CORE_ONLY */
